@@ -72,6 +72,17 @@ func report(prop string, cfg *PropConfig, w *World, results []*FnResult, missing
 			}
 		}
 	}
+	engineErrs := 0
+	for _, r := range results {
+		for _, o := range r.Obls {
+			if o.SolverErr != "" {
+				if engineErrs < 5 {
+					fmt.Printf("ENGINE-ERROR: the solver rejected the query generated for %s: %s\n", o.Name, o.SolverErr)
+				}
+				engineErrs++
+			}
+		}
+	}
 	perBackend := map[string]int{}
 	var solverTime float64
 	var proved, binding, violations int
